@@ -9,10 +9,10 @@
  *        (rejected); y&2: the future has no callback.  The callback contains a schedule point (a callback takes time):
  *        "ready" must not be observable by a lock-free ABT_future_test before the callback has *completed*; ULT / external
  *        testers may poll until ready.
- *   y&4 (fut): concurrent reset.  Every phase has no waiters (reset with a blocked waiter is undefined) and one extra
- *        actor that calls ABT_future_reset once some sets of the phase have begun, concurrently with the others; the
- *        outcome (successful sets, callbacks, final counter) must be explained by a linearisation of the sets and the
- *        reset that respects real time.
+ *   y&4: concurrent reset.  Every phase has no waiters (reset with a blocked waiter is undefined) and one extra actor
+ *        that calls ABT_eventual_reset / ABT_future_reset once some sets of the phase have begun, concurrently with the
+ *        others; the outcome (successful sets, callbacks, final ready flag / counter) must be explained by a
+ *        linearisation of the sets and the reset that respects real time.
  *   y&8: "wait; free".  The last phase has exactly the sets that make the object ready, one waiter and nobody else; the
  *        waiter frees the object as soon as its wait has returned, i.e. possibly while the setter that woke it is still
  *        inside set.  `free` is interposed for this program: the freed object is poisoned and kept (never reused), every
@@ -106,6 +106,7 @@ static void quarantine_check(void)
 }
 
 static int racy_reset;  /* y&4 */
+static int rs_called, rs_done, rs_ret_before, rs_started_at_ret; /* the concurrent reset of a racy phase */
 static int free_by_waiter, free_phase, freed_by_waiter; /* y&8; the current phase is the free phase; done */
 
 enum { R_SET = 0, R_WAIT, R_TEST, R_TASKWAIT, R_RESET };
@@ -119,7 +120,7 @@ static ABT_eventual E0;
 static ABTI_eventual *pE;
 static int e_nbytes;
 static uint64_t e_val[MAX_ACTORS][2]; /* the value each setter passes in this phase */
-static int e_started, e_succ, e_winner;
+static int e_started, e_succ, e_winner, e_rets;
 static uint32_t e_started_mask;
 static int w_has[MAX_ACTORS];
 static uint64_t w_seen[MAX_ACTORS][2];
@@ -185,11 +186,12 @@ static void ev_body(actor *a)
             vs_note("apiRet set E0 %s %s", rcname(rc, b), hexbuf(e_val[me], e_nbytes, h));
             return;
         }
+        e_rets++;
         if (rc == ABT_SUCCESS) {
             e_succ++;
             e_winner = me;
-            VSA_CHECK(e_succ == 1, "E0: a second ABT_eventual_set succeeded (A%d) in phase %d", a->id, phase);
-            if (e_nbytes)
+            VSA_CHECK(e_succ <= (racy_reset ? 2 : 1), "E0: one ABT_eventual_set too many succeeded (A%d) in phase %d", a->id, phase);
+            if (e_nbytes && !racy_reset)
                 VSA_CHECK(!memcmp(pE->value, e_val[me], (size_t)e_nbytes), "E0: value differs from the one A%d set", a->id);
         } else {
             VSA_CHECK(rc == ABT_ERR_EVENTUAL, "E0: losing ABT_eventual_set returned %d, expected ABT_ERR_EVENTUAL", rc);
@@ -198,7 +200,7 @@ static void ev_body(actor *a)
                 int s = started_value(pE->value);
                 VSA_CHECK(s >= 0 && s != me, "E0: failed set by A%d modified the value", a->id);
             }
-            VSA_CHECK(pE->ready == ABT_TRUE, "E0: failed set but eventual not ready");
+            VSA_CHECK(pE->ready == ABT_TRUE || rs_called, "E0: failed set but eventual not ready");
         }
         vs_note("apiRet set E0 %s %s", rcname(rc, b), hexbuf(pE->value, e_nbytes, h));
     } else if (ri->role == R_WAIT) {
@@ -236,13 +238,25 @@ static void ev_body(actor *a)
                 VSA_CHECK(e_started > 0, "E0: test by A%d reported ready before any set of phase %d began", a->id, phase);
                 check_value(a, "test", v);
             } else {
-                VSA_CHECK(succ0 == 0, "E0: test by A%d reported not ready although a set had already returned", a->id);
+                VSA_CHECK(succ0 == 0 || rs_called, "E0: test by A%d reported not ready although a set had already returned", a->id);
                 VSA_CHECK(v == (void *)0x1, "E0: test wrote the value pointer although not ready");
             }
             vs_note("apiRet test E0 %s %d %s", rcname(rc, b), ready == ABT_TRUE, ready == ABT_TRUE ? hexbuf(pE->value, e_nbytes, h) : "-");
             if (a->kind != AK_TASK)
                 relax(a);
         }
+    } else if (ri->role == R_RESET) {
+        /* reset concurrently with the sets of this phase: once `nops` of them have begun (tasklets cannot wait) */
+        for (int spin = 0; a->kind != AK_TASK && e_started < ri->nops && spin < 400; spin++)
+            relax(a);
+        vs_log("apiCall reset E0");
+        rs_called = 1;
+        rs_ret_before = e_rets;
+        int rc = ABT_eventual_reset(E0);
+        rs_started_at_ret = e_started;
+        rs_done = 1;
+        vs_note("apiRet reset E0 %s -", rcname(rc, b));
+        VSA_CHECK(rc == ABT_SUCCESS, "ABT_eventual_reset returned %d", rc);
     } else {
         void *v;
         vs_log("apiCall wait E0");
@@ -254,7 +268,8 @@ static void ev_body(actor *a)
 
 static void ev_phase_begin(void)
 {
-    e_started = e_succ = 0;
+    e_started = e_succ = e_rets = 0;
+    rs_called = rs_done = rs_ret_before = rs_started_at_ret = 0;
     e_started_mask = 0;
     e_winner = -1;
     memset(w_has, 0, sizeof w_has);
@@ -265,6 +280,21 @@ static void ev_phase_begin(void)
 }
 static void ev_phase_end(int nset)
 {
+    if (racy_reset) {
+        /* linearisability of nset sets and one reset: with k sets taking effect before the reset (k at least the sets
+         * that had returned when the reset was called, at most those begun when it returned), (k >= 1) + (nset - k >= 1)
+         * sets succeed and the eventual ends up ready iff nset - k >= 1 */
+        int ok = 0, r = pE->ready == ABT_TRUE;
+        VSA_CHECK(rs_done == 1 && e_started == nset && e_rets == nset, "E0: phase %d: %d sets begun, %d returned, reset done=%d", phase,
+                  e_started, e_rets, rs_done);
+        for (int k = rs_ret_before; k <= rs_started_at_ret && k <= nset; k++)
+            if (e_succ == (k >= 1) + (nset - k >= 1) && r == (nset - k >= 1))
+                ok = 1;
+        VSA_CHECK(ok, "E0: phase %d: no linearisation of %d sets and a concurrent reset explains the outcome: %d sets succeeded, "
+                      "ready=%d at the end (%d sets had returned when the reset was called, %d had begun when it returned)",
+                  phase, nset, e_succ, r, rs_ret_before, rs_started_at_ret);
+        return;
+    }
     VSA_CHECK(e_started == nset && e_succ == (nset > 0), "E0: phase %d: %d sets, %d succeeded", phase, e_started, e_succ);
     if (freed_by_waiter)
         return;
@@ -282,7 +312,7 @@ static ABT_future F0;
 static ABTI_future *pF;
 static int f_n, f_hascb;
 static int f_started, f_succ, f_fail, f_rets, cb_count, cb_done;
-static int rs_called, rs_done, rs_ret_before, rs_started_at_ret; /* the concurrent reset of a racy phase */
+
 static void *f_started_vals[64], *f_succ_vals[64], *cb_seen[MAXC];
 static int f_next;
 
@@ -549,7 +579,7 @@ int main(int argc, char **argv)
         nsetact = nset;
     }
     int taskwait = (y & 1) ? 1 : 0;
-    racy_reset = isfut && (y & 4) && !(y & 8);
+    racy_reset = (y & 4) && !(y & 8);
     free_by_waiter = (y & 8) ? 1 : 0;
     vs_set_atomic_fn(uaf_monitor);
     if (nsetact + nwait + ntest + taskwait + 1 > MAX_ACTORS) {
